@@ -32,7 +32,9 @@ RULE = ("a history on ONE long-lived build; every step draws one element of the 
         "family); part 'histories' draws random programs and random combination sequences. Epilogue of a third of the "
         "histories (and of every context-manager combination of the cross product): a lazy Iter result over the root is "
         "obtained and partly consumed inside cache.disabled() / logging.disabled() and drained after the block; every item "
-        "has the switches-off value and two following switches-off evaluations cache and log normally. Non-trivial = the history "
+        "has the switches-off value and two following switches-off evaluations cache and log normally; and of another third: a "
+        "dataset that has been in use is switched to NoCache through set_cache() (instance or class form) and must from "
+        "then on recompute and log once per evaluation. Non-trivial = the history "
         "uses >=3 distinct combinations incl. a cache-off step on a graph that reaches a cacheable dataset; distinct = "
         "distinct (spec, history) hash.")
 ASSUMPTIONS = [
@@ -238,6 +240,40 @@ def check(case, ctx):
                 if not r.speculated and a != b:
                     raise Violation("switch-outlives-block", f"after a lazy result was obtained inside {lazy['ctx']} and drained outside, {nm} evaluation on {o} "
                                                              f"with all switches off: log records {dict(a)} but computed evaluations {dict(b)}")
+    late = case.get("late_nocache")
+    derived_from = set()
+    specgen.walk(spec, lambda n: derived_from.add(n["base"]) if n["k"] == "derived" else None)
+    # (copies derived from a dataset earlier keep their own cache and share its name in the logs: such datasets are not chosen)
+    cands = [d["name"] for d in spec["defs"] if not d.get("nocache") and d["name"] not in derived_from]
+    if late and cands:
+        # a dataset that has been in use is switched to no caching through the public set_cache(): from then on each of its
+        # evaluations recomputes and logs once
+        from labrea.cache import NoCache
+        name = cands[late["ds"] % len(cands)]
+        o = case["steps"][-1][0]
+        live = G.ds[name]
+        if late.get("touch"):
+            run(getattr(live, late["touch"]), copy.deepcopy(o))
+        live.set_cache(NoCache() if late["form"] == "instance" else NoCache)
+        sub = dict(spec, root={"k": "ref", "name": name})
+        r = Ref(sub).run(o)
+        old_root, G.root = G.root, live
+        try:
+            outs = [step(G, spec, o, ("on", "on", "on"), owner) for _ in range(2)]
+        finally:
+            G.root = old_root
+        for n_eval, (out, bodies, effs, records, sets, toggled) in enumerate(outs):
+            if out.ok != r.ok or (r.ok and out.value != r.value):
+                raise Violation("value-changed-by-switch", f"{name} after set_cache(NoCache) on {o}: {out!r}, expected {r!r}")
+            if r.ok and name not in bodies and name in r.must:
+                raise Violation("cache-read-while-disabled", f"{name} was used, then switched to NoCache with set_cache ({late}); evaluation #{n_eval + 1} on {o} "
+                                                             f"did not run its body (an entry of the replaced cache was served)")
+            if r.ok and name in r.must and not r.speculated:
+                # (a derived copy carries its parent's name: records are compared with computed evaluations, as above)
+                n_rec = sum(1 for _, m in records if ds_of_msg(m) == name)
+                if n_rec != sets.count(name) or n_rec < 1:
+                    raise Violation("log-count", f"{name} after set_cache(NoCache): evaluation #{n_eval + 1} on {o}: {sets.count(name)} computed evaluations but {n_rec} log records")
+        labels.add("set_cache(NoCache)-after-use")
     nontrivial = len(combos_used) >= 3 and any(c[0] != "on" for c in combos_used) and reached_cacheable
     ctx.done(case, nontrivial, labels)
 
@@ -254,6 +290,9 @@ def cases(draw, prof, maxlen):
             combo[0] = draw(st.sampled_from(CACHE[1:]))
         steps.append([o, combo])
     case = {"spec": spec, "steps": steps}
+    if draw(st.integers(0, 2)) == 0:
+        case["late_nocache"] = {"ds": draw(st.integers(0, 5)), "form": draw(st.sampled_from(["instance", "class"])),
+                                "touch": draw(st.sampled_from([None, "validate", "keys", "explain", "evaluate"]))}
     if draw(st.integers(0, 2)) == 0:
         case["lazy"] = {"ctx": draw(st.sampled_from([["cache"], ["logging"], ["cache", "logging"]])), "pull": draw(st.integers(0, 3))}
     return case
